@@ -262,6 +262,36 @@ def spmInfo (j : Json) : R Json := do
       ("resid_run_number", ofList (ofOpt ofNat) (selectResiduals runNo reg)),
       ("resid_rows", ofList (ofOpt ofNat) (selectResiduals (List.range names.length) reg))])
 
+/-- one call of a look-up session -/
+def asStep (j : Json) : R Step := do
+  let op ← fld j "op" >>= asStr
+  let h : R Nat := fld j "h" >>= asNat
+  match op with
+  | "new_file" => pure (.newFile (← fld j "path" >>= asS))
+  | "find_files" =>
+    pure (.findFiles (← fld j "derivative" >>= asS) (← fld j "desc" >>= asS)
+      (← asOpt (asList asS) (fldD j "tasks" Json.null)))
+  | "find_meta" => pure (.findMeta (← h))
+  | "get_meta" => pure (.getMeta (← h))
+  | "find_events" => pure (.findEvents (← h))
+  | "table_sibling" => pure (.tableSibling (← h) (← fld j "desc" >>= asS) (← fld j "suffix" >>= asS))
+  | "mri_sibling" => pure (.mriSibling (← h) (← fld j "desc" >>= asS) (← fld j "suffix" >>= asS))
+  | "table_key" => pure (.tableKey (← h))
+  | o => throw s!"c20.session: unknown step {o}"
+
+def ofAns : Ans Nat → Json
+  | .file p d => obj [("path", ofS p), ("data", ofOpt ofNat d)]
+  | .files ps => obj [("files", ofList ofS ps)]
+  | .err e => exc e
+
+/-- a look-up session on one layout, the code as written (caches included); the content of a
+    file is its index in the list of files on disk -/
+def session (j : Json) : R Json := do
+  let files ← fld j "files" >>= asList asS
+  let steps ← fld j "steps" >>= asList asStep
+  let fs : Str → Option Nat := fun p => files.findIdx? (· == p)
+  pure (ofList ofAns (runSession Src.lk fs files {} steps))
+
 /-- the tabulated HRF (units of 1e-7) as regenerated from `io/hrf.py` -/
 def hrfTableOp (_ : Json) : R Json := pure (ofList ofInt hrfTable)
 
@@ -279,6 +309,7 @@ def handle : Handler := fun op j =>
   | "c20.relocate" => some (relocateOp j)
   | "c20.tree" => some (tree j)
   | "c20.spm_info" => some (spmInfo j)
+  | "c20.session" => some (session j)
   | _ => none
 
 end Rsa.Drv.C20
